@@ -416,6 +416,17 @@ def _prefilter(tier):
                     bounds="2 members, unbounded symbolic coordinates and query")
             out.extend(split_cubes(o, {"q_holds_first": lambda **kw: kw["qs"] <= kw["s0"] and kw["s0"] + kw["l0"] <= kw["qe"],
                                        "q_holds_second": lambda **kw: kw["qs"] <= kw["vs"] and kw["vs"] + kw["vl"] <= kw["qe"]}))
+    from harness.c09 import many_members_fn
+
+    out.append(Obl("prefilter_many_members_across_bins", many_members_fn(), dict(n=int, h=int, span=int, q=int, ab=int, within=int, sc=int, co=int),
+                   lambda n, h, span, q, ab, within, sc, co: n == 70 and 0 <= h and h <= 1 and (span == 1 or span == 5 or span == 39) and
+                   (q == 0 or q == 1 or q == 2 or q == 5 or q == 6 or q == 40 or q == 41) and 0 <= ab and ab <= 3 and 0 <= within and within <= 1 and sc == 3000
+                   and 0 <= co and co <= 1, budget=900, cost=120, stubs=dict(bins="real"),
+                   desc="72-member collection spread over 160+ 128-kb bins (short genes every 300 kb, every third one coding; a long coding gene and a long feature collection "
+                        "crossing many bin boundaries): strict and relaxed position queries, with and without coding_only, return exactly the members within / "
+                        "overlapping - whatever order bins and members come in (real bins())",
+                   bounds="72 members, tile 300 kb; host start 2 x host span 3 x query tile 7 x query shape 4 x strict/relaxed x coding_only (closed by the solver)",
+                   examples=[dict(n=70, h=0, span=39, q=2, ab=0, within=1, sc=3000, co=0), dict(n=70, h=1, span=5, q=5, ab=3, within=1, sc=3000, co=1)]))
     if tier == "quick":
         # the straddling situation (query strictly inside the gene's span, feature collection starting after the gene): one cube of the thorough obligation
         o = Obl("prefilter_exact_bins_strict_straddle", qfn(True), dict(P),
